@@ -70,7 +70,10 @@ def analyse(obs: Obs, prog):
             fk = ("call", G("jax.random.fold_in"), (cin[ik], cin[ic]), ())
             kk = inner[2][0]
             obs.add({"C04"} | (props & {"C12"}), "KEY-LOOP", inst + "/key", kk == fk, derived=kk, expected="fold_in(carried key, iteration counter): a fresh key per iteration", where=where)
-            obs.add({"C04"}, "KEY-LOOP", inst + "/key-carry", cout[ik] in (fk, cin[ik]), derived=cout[ik], expected="the key slot carries the (folded) key", where=where)
+            obs.add({"C04"}, "KEY-LINEAR", inst + "/key-carry", cout[ik] == cin[ik] and cout[ik] != kk, construct="carried key",
+                    derived=f"carries {show(cout[ik])[:120]}; the kernel consumes {show(kk)[:120]}",
+                    expected="the parent key is carried unchanged and only the per-iteration child fold_in(key, i) is handed to the kernel: a key that a callee consumes must not also be the parent of later derivations "
+                    "(the callee derives fold_in(k, c) for its own sites, which collides with fold_in(k, i+1))", where=where)
         lenkw = sc.length
         obs.add(props | {"C12"}, "SCAN-LENGTH", inst + "/length", lenkw == LEN, derived=lenkw, expected="length=self.length", where=where)
 
